@@ -379,7 +379,10 @@ def report(mod, pid, tier, seed, results, funcs, scratch, wall):
             sc = res['script']
             r = sc.get('res')
             entry = dict(name=cond.name, kind='E2-z3', bound=cond.bound, wall_s=round(sc['wall'], 1))
-            if r is None:
+            if r is None and sc['rc'] == -9:
+                entry['verdict'] = 'inconclusive'
+                inconclusive.append('%s: solver script exceeded its wall-clock budget' % cond.name)
+            elif r is None:
                 entry['verdict'] = 'tool-error'
                 harness_errors.append('%s: script produced no result (rc=%s) %s' % (
                     cond.name, sc['rc'], (sc['err'] or sc['out'])[-600:]))
